@@ -205,7 +205,7 @@ class Screen:
 
 CAPS = {
     "hide_cursor": "\x1b[?25l", "normal_cursor": "\x1b[?12l\x1b[?25h", "clear_eol": "\x1b[K", "clear_bol": "\x1b[1K",
-    "clear_eos": "\x1b[J", "move_down": "\n", "enter_fullscreen": "\x1b[?1049h", "exit_fullscreen": "\x1b[?1049l",
+    "clear_eos": "\x1b[J", "clear": "\x1b[H\x1b[2J", "home": "\x1b[H", "move_down": "\n", "enter_fullscreen": "\x1b[?1049h", "exit_fullscreen": "\x1b[?1049l",
 }
 
 
